@@ -627,7 +627,15 @@ func (s *socket) flushOnce() {
 		if len(wbuf) > 0 {
 			socket_log.Debug("flushing buffer to transport")
 			s.Emit("flush", wbuf)
+			// a listener may have closed the session (Close(true) discards what it
+			// was handed): nothing of this hand-off follows the close event
+			if s.ReadyState() == "closed" {
+				return
+			}
 			s.server.Emit("flush", s, wbuf)
+			if s.ReadyState() == "closed" {
+				return
+			}
 			if len(packetsFn) > 0 {
 				s.sentCallbackFn.Push(packetsFn)
 			} else {
